@@ -10,6 +10,7 @@ bad=0
 for id in $(jq -r '.checks[].property_id' MANIFEST.json); do
   cmd=$(jq -r --arg id "$id" --arg t "${TIER}_cmd" '.checks[]|select(.property_id==$id)|.[$t]' MANIFEST.json)
   ev=$(jq -r --arg id "$id" '.checks[]|select(.property_id==$id)|.evidence_file' MANIFEST.json)
+  ev="$V/${ev#/verif/}"   # in a snapshot (vp run) the checks write under the snapshot, never under /verif
   rm -f "$ev"; s=$(date +%s)
   bash -c "$cmd" > "$OUT/$id.log" 2>&1; rc=$?
   v=$(grep -c '^VIOLATION' "$OUT/$id.log"); k=$(grep -c '^KNOWN-FINDING' "$OUT/$id.log")
